@@ -384,6 +384,11 @@ fn bisync_history(case: &Value, base: &Path) -> Value {
                 "garbage" => { let _ = std::fs::write(&ap, b"{\"not\": \"an archive\"}"); }
                 "version0" => { if let Ok(t) = std::fs::read_to_string(&ap) { let _ = std::fs::write(&ap, t.replace("\"format_version\": 1", "\"format_version\": 0")); } }
                 "version" => { if let Ok(t) = std::fs::read_to_string(&ap) { let _ = std::fs::write(&ap, t.replace("\"format_version\": 1", "\"format_version\": 2")); } }
+                // an archive whose recorded pair id is NOT this pair's: a proper prefix of it, or blank
+                "pair_prefix" | "pair_blank" => { if let Ok(t) = std::fs::read_to_string(&ap) {
+                    let me = archive::root_pair_hash(x, y);
+                    let other = if how == "pair_blank" { String::new() } else { me[..16].to_string() };
+                    let _ = std::fs::write(&ap, t.replace(&me, &other)); } }
                 "foreign" => { if let Ok(t) = std::fs::read_to_string(&ap) {
                     let me = archive::root_pair_hash(x, y);
                     let _ = std::fs::write(&ap, t.replace(&me, &"0".repeat(me.len()))); } }
@@ -468,6 +473,14 @@ fn pair_hash_case(base: &Path) -> Value {
 fn run_case(case: &Value, base: &Path) -> Value {
     match case["fn"].as_str().unwrap_or("") {
         "pair_hash" => pair_hash_case(base),
+        "short_names" => {
+            // the two helpers that name conflict copies, on a given 32-byte digest
+            let mut h = [0u8; 32];
+            for (i, v) in case["digest"].as_array().cloned().unwrap_or_default().iter().enumerate().take(32) {
+                h[i] = v.as_u64().unwrap_or(0) as u8;
+            }
+            json!({"short_hex": bidir::verif_wrap::v_short_hex(&h), "short_hash": wire::short_hash(&h)})
+        }
         "hub_sync" => hub_sync_case(case, base),
         "bisync_apply" => bisync_apply(case, base),
         "bisync_history" => bisync_history(case, base),
